@@ -17,6 +17,13 @@
 (*   other   number of OTHER settings whose stored value changed           *)
 (*   valid_after   verdict of the contract's own validation on the stored  *)
 (*                 settings after the transaction                          *)
+(*   frun / ffresh  (chain settings only, else empty) the tracked settings *)
+(*           as held by the chain config of a node that has been running   *)
+(*           since the start of the trace / of a node that (re)starts on   *)
+(*           the state after this transaction, both refreshed by the real  *)
+(*           ConfigImpl.Update(fields, version) as at block finalization;  *)
+(*   fother  number of other chain config fields in which the two differ   *)
+(*   entries input 0 = the value the setting currently has                 *)
 (* The spec tracks, per settings node, the last state read; the invariants *)
 (* are those of Governance.tla.  Error texts, costs, fees, encodings and   *)
 (* whether a well-formed change is accepted are left free.                 *)
@@ -66,6 +73,9 @@ C48_Atomic == IsG =>
       ELSE After \in {Before, ApplyTo(Before, Want)}
 (* whatever is put in force passes the contract's own validation *)
 C48_ValidAfter == (IsG /\ ~IsKnown(ev) /\ After # Before) => ev.valid_after
+(* the settings in force for a block are the same on every node: a node that has followed the   *)
+(* chain and a node that starts on the block's state hold the same chain config                *)
+C48_SameOnEveryNode == IsG => (Fn(ev.frun) = Fn(ev.ffresh) /\ ev.fother = 0)
 (* settings do not change between governance transactions *)
 C48_NoSilentChange == (IsG /\ ev.sc \in DOMAIN was) => (Before = was[ev.sc].s /\ PBefore = was[ev.sc].p)
 =============================================================================
